@@ -335,6 +335,19 @@ func (in *Interp) vIntrinsic(base string, fn *ssa.Function, args []Value) (Value
 		v := Var(nm, 8)
 		in.addSym(v)
 		return v, true
+	case "vByteRange":
+		// a byte with a declared domain [lo,hi]: the constraint is asserted without exploring its negation
+		nm := goString(args[0].(StrVal))
+		lo, hi := args[1].(*Term), args[2].(*Term)
+		v := Var(nm, 8)
+		in.addSym(v)
+		c := And(Cmp("bvule", lo, v), Cmp("bvule", v, hi))
+		if _, seen := in.known[c]; !seen {
+			in.sol.Push(c)
+			in.pushed++
+			in.learn(c, true)
+		}
+		return v, true
 	case "vInt":
 		nm := goString(args[0].(StrVal))
 		lo, hi := args[1].(*Term), args[2].(*Term)
